@@ -360,3 +360,21 @@ func specIncludes(text string) []string {
 func (eng *Engine) globalInit(vc *VC, g *ssa.Global) (string, bool) {
 	return vc.evalGlobalInit(g)
 }
+
+// anyFunc returns some function of the module (lemma VCs need a function only for naming).
+func (eng *Engine) anyFunc() *ssa.Function {
+	for _, f := range eng.allFuncs {
+		if f.Pkg != nil && strings.HasPrefix(f.Pkg.Pkg.Path(), eng.modPath) {
+			return f
+		}
+	}
+	return eng.allFuncs[0]
+}
+
+// outBase is where evidence, replays and VC files go: /verif normally, a scratch directory for selftests.
+func (eng *Engine) outBase() string {
+	if d := os.Getenv("VERIF_OUT"); d != "" {
+		return d
+	}
+	return eng.verif
+}
